@@ -2,10 +2,10 @@ CONSTANTS
   N = 4
   MaxOps = 0
   Track = FALSE
-  Fills = {"zero", "sym", "tmpl"}
+  Fills = {"zero", "tmpl"}
   NPats = 2
   Confl = TRUE
-  Ops = {"join", "unjoin", "select", "slice", "concat", "subs"}
+  Ops = {"join", "unjoin", "select", "slice", "concat"}
 INIT Init
 NEXT Next
 INVARIANT TypeOK
